@@ -8,7 +8,7 @@ EXPLANATION = ("(success, script, final divisor) compared for equality with the 
 def gen(rng, tier):
     out = []
     for _ in range(260 if tier == "quick" else 6000):
-        G, fam = common.random_connected_graph(rng, 1, 6); n = G["n"]
+        G, fam = common.random_connected_graph(rng, 1, 6, large_ok=True); n = G["n"]
         kind = rng.choice(["random", "random", "boundary", "boundary", "unwinnable", "effective"])
         if kind == "boundary" and n >= 2:
             E = [rng.randint(0, 2) for _ in range(n)]; T = 10 * n + rng.choice([-1, 0, 0, 1]); c = [0] * n
